@@ -30,7 +30,8 @@ def benign_table():
               ("agent-written round 5 (fCxx_n; 'a commit in this project's history')", "f"),
               ("agent-written round 6 (gCxx_n; 'a different maintainer: different taste, different habits')", "g"),
               ("agent-written round 7 (hCxx_n; one change each of three prescribed kinds: structure, control-flow idiom, data/arithmetic form)", "h"),
-              ("agent-written round 8 (iCxx_n; larger changes: a tidy-up pass over several functions, an internal redesign of a private piece, a performance-motivated rewrite)", "i")]
+              ("agent-written round 8 (iCxx_n; larger changes: a tidy-up pass over several functions, an internal redesign of a private piece, a performance-motivated rewrite)", "i"),
+              ("agent-written round 9 (jCxx_n; cross-module reorganisation, one error-handling style applied to a whole file, named concepts)", "j")]
     out = ["| suite | variants | silent on all 20 checks | alarming |", "|---|---|---|---|"]
     for title, pre in groups:
         names = sorted(k for k in m if k.startswith(pre))
